@@ -1,21 +1,27 @@
-/* C05 (map): operation scripts through the PUBLIC API only, from an empty map made by the real m_map_new()
- * (table of MAP_SIZE_DEFAULT = 256 slots, from the harness allocator's arena).  L operations chosen by the solver
- * from put / remove / clear with symbolic key, value, flags and hash homes (all 256 homes: collisions, clusters
- * that wrap from slot 255 to slot 0), then a closing observation: every key through get/contains, len, a full
- * iterator walk (every live entry exactly once), m_map_free, and nothing left allocated (leak=True).
- * After EVERY operation the representation invariant of map_common.h is asserted on the real object - this is the
- * base case of the induction the step harnesses (map_step.c, map_itr_step.c, map_grow.c) rely on, and it ties the
- * harness's copy of the private layout to the real one. */
+/* C05 (map): operation scripts through the PUBLIC API, from the empty map made by the real m_map_new().
+ * L operations chosen by the solver from put / remove / clear with symbolic key, value, flags and hash homes, then a
+ * closing observation: every key through contains, len, a full iterator walk (every live entry exactly once),
+ * m_map_free, and nothing left allocated (leak=True).  After EVERY operation the representation invariant of
+ * map_common.h is asserted on the real object - the base case of the induction the step harnesses (map_step.c,
+ * map_itr_step.c, map_grow.c) rely on - which also ties the harness's copy of the private layout to the real one.
+ *
+ * One deviation, stated in the job's bounds: m_map_new() always makes a 256-slot table (MAP_SIZE_DEFAULT, no API
+ * to choose it), and a symbolic 256-slot table did not finish (symex > 15 min: every slot may hold an entry at
+ * every table walk).  The harness therefore sets table_size to TS (4) right after m_map_new() - the table, zeroed by
+ * the allocator hook, is simply used as a TS-slot one, i.e. the map m_map_new would make with MAP_SIZE_DEFAULT = TS.
+ * map.c is size-generic (power of two); the shipped size is exercised natively by /verif/repro/C05_*.c.
+ * With TS = 4 a script of 4 puts also grows the table (4 -> 8) through the API. */
 #ifndef TS
-#define TS 256
+#define TS 4
 #endif
 #ifndef L
 #define L 3
 #endif
-#define MAXTS TS
+#define MAXTS (2 * TS)
 #define VBASE 0
 #define NFRESH (L + 1)
 #define MAXA (L + 2)
+#define VF_TBL_FIRST_REQ 256
 #include "map_common.h"
 
 static char putkey[KEYLEN];
@@ -28,13 +34,14 @@ int vf_main(void) {
     bool upd = nondet_bool();
     bool with_dtor = nondet_bool();
     g_with_dtor = with_dtor;
-    vf_tbl_budget = 1;
+    vf_tbl_budget = 2;                                     /* the initial table + one growth */
     /* flags as the user passes them: M_MAP_KEY_DUP alone must imply AUTOFREE */
     unsigned uf = (upd ? M_MAP_VAL_ALLOW_UPDATE : 0) | (keymode == 1 ? M_MAP_KEY_AUTOFREE : 0) | (keymode == 2 ? M_MAP_KEY_DUP : 0);
     if (keymode == 2 && nondet_bool()) uf |= M_MAP_KEY_AUTOFREE;
     m_map_t *m = m_map_new((m_map_flags)uf, with_dtor ? vf_dtor : NULL);
     VF_ASSUME(m != NULL);
-    VF_CHECK(m == &vf_map_arena && m->table == vf_tbl_a0 && m->table_size == TS, "m_map_new: one map object, one table of the default size");
+    VF_CHECK(m == &vf_map_arena && m->table == vf_tbl_a0 && m->table_size == 256 && vf_tbl_req0 == 256, "m_map_new: one map object, one zeroed table of the default size");
+    m->table_size = TS;                                    /* see header: the one deviation */
     vf_check_inv(m);
     VF_CHECK(m_map_len(m) == 0, "a new map is empty");
 
@@ -101,7 +108,7 @@ int vf_main(void) {
     VF_CHECK(r == 0 && m == NULL, "free succeeds and clears the handle");
     for (int j = 0; j < NK; j++) if (mo_present[j]) { mo_dt[mo_val[j]]++; mo_present[j] = false; }
     vf_check_dtors();
-    VF_CHECK(vf_tbl_freed[0] == 1 && vf_map_freed == 1, "free releases the table and the map object, once each");
+    VF_CHECK(vf_tbl_freed[0] == 1 && vf_tbl_freed[1] == (vf_tbl_next > 1) && vf_map_freed == 1, "every table and the map object are released, once each");
     if (keymode) VF_CHECK(ka_live() == 0, "free releases every key the map owns");
     VF_WITNESS("end");
     return 0;
